@@ -22,13 +22,16 @@ def cond_reference(p, a_name, Da, b_name, Db):
     return dict(M=M, b=b, Sigma=Saa, Lambda=Laa, ln_det_Sigma=nf.neg(ldLaa))
 
 
-def condition_on_ob(explicit, R_is_one):
+def condition_on_ob(explicit, R_is_one, special=None):
+    """special: None (generic sizes) | 'Db=1' (condition on a single coordinate) | 'Da=1' (a single coordinate remains): sizes at which
+    a shortcut of the code may switch on (`len(dim) == 1`), which the generic-size run never enters"""
     meth = "condition_on_explicit" if explicit else "condition_on"
 
     def run():
         I = build.new_interp()
         R = D(1) if R_is_one else sym("R")
-        Dd, Db = sym("D"), sym("Db")
+        Db = D(1) if special == "Db=1" else sym("Db")
+        Dd = Db + 1 if special == "Da=1" else sym("D")
         p = build.pdf(I, R, Dd, "p")
         dim_b = build.indices("dim_b", Db, distinct=True)
         if explicit:
@@ -47,7 +50,7 @@ def condition_on_ob(explicit, R_is_one):
         for fld in ("M", "b", "Sigma", "Lambda", "ln_det_Sigma"):
             d += [(fld,) + tuple(x) for x in nf.diff(c.f[fld], ref[fld], what=f"{meth} {fld}")[:5]]
         return d, dict(funcs=funcs_of(I))
-    return Ob(f"{meth}/R={'1' if R_is_one else 'R'}", run,
+    return Ob(f"{meth}/R={'1' if R_is_one else 'R'}" + (f"/{special}" if special else ""), run,
               "p(x_a|x_b): Lambda_aa, Sigma = Inv(Lambda_aa), M = -Sigma Lambda_ab, b = mu_a - M mu_b, ln det = -LnDet(Lambda_aa); a = ascending complement (or the caller's list)",
               f"{P}::GaussianPDF.{meth}", group="condition_on")
 
@@ -91,12 +94,15 @@ def obligations(tier):
     for ex in (False, True):
         for r1 in (False, True):
             obs.append(condition_on_ob(ex, r1))
+            if not r1:
+                obs.append(condition_on_ob(ex, r1, "Db=1"))
+                obs.append(condition_on_ob(ex, r1, "Da=1"))
     for cls in drivers.COND_CLASSES:
         for ctx in ("1", "n"):
             obs.append(condition_on_x_ob(prog, cls, ctx))
     return obs
 
 
-FLOORS = {"group:condition_on": 4, "group:condition_on_x": 8}
+FLOORS = {"group:condition_on": 8, "group:condition_on_x": 8}
 LEVEL = "proof"
 EXPLANATION = "condition_on / condition_on_explicit against the information-form conditioning formulas with generic index sets; condition_on_x of every conditional class against N(Mx+b, Sigma) in layout r*N+n."
